@@ -9,6 +9,7 @@
 #include <cstring>
 #include <functional>
 #include <iostream>
+#include <limits>
 #include <memory>
 #include <sstream>
 #include <stdexcept>
@@ -42,6 +43,10 @@ inline std::string jstr(const std::string &s)
 #define Q_UNLIKELY(x) (x)
 #define Q_UNREACHABLE() throw ::mock::Trap("unreachable")
 #define Q_ASSERT_X(cond, where, what) do { if (!(cond)) throw ::mock::Trap(std::string("assert:") + what); } while (0)
+
+// <QtGlobal> pulls in qnumeric.h
+inline double qInf() { return std::numeric_limits<double>::infinity(); }
+inline double qQNaN() { return std::numeric_limits<double>::quiet_NaN(); }
 
 class QString {
 public:
